@@ -723,8 +723,18 @@ theorem parse_vex2_mem (r : Rule) (pfx : List (BitVec 8)) (b1 o mb : BitVec 8) (
     cases sib <;> simp <;> omega
 
 
+/-- the decorations of a call, as the monitor reads them -/
+def decorOf (k : Nat) (z er sae : Bool) (rc : Nat) : Decor := { k := k, z := z, er := er, sae := sae, rc := rc }
+
+/-- the form allows the decorations -/
+structure DecorAllowed (rule : Rule) (k : Nat) (z er sae : Bool) : Prop where
+  hk : k ≠ 0 → rule.kmask = true
+  hz : z = true → rule.zmask = true
+  her : er = true → rule.er = true
+  hsae : sae = true → (rule.sae = true ∨ rule.er = true)
+
 /-- what the parser returned for a VEX-family MEMORY form, in terms of the rule -/
-structure VexParsedM (rule : Rule) (p : Parsed) (mb : BitVec 8) (pfx : List (BitVec 8)) : Prop where
+structure VexParsedM (rule : Rule) (p : Parsed) (mb : BitVec 8) (pfx : List (BitVec 8)) (k : Nat) (z : Bool) : Prop where
   hvk : p.vexKind = 2 ∨ p.vexKind = 3 ∨ p.vexKind = 4 ∨ p.vexKind = 5
   hpfx : p.prefixes = pfx
   hrex : p.rex = none
@@ -736,7 +746,8 @@ structure VexParsedM (rule : Rule) (p : Parsed) (mb : BitVec 8) (pfx : List (Bit
   hw : wWant rule = 2 ∨ p.W = (wWant rule == 1)
   hl : rule.l = 3 ∨ p.L = rule.l
   hl1 : p.vexKind ≠ 4 → p.L ≤ 1
-  hev : p.vexKind = 4 → (p.aaa = 0 ∧ p.z = false ∧ p.b = false ∧ p.map < 8)
+  hev : p.vexKind = 4 → (p.aaa = k ∧ p.z = z ∧ p.b = false ∧ p.map < 8)
+  hnk : p.vexKind ≠ 4 → k = 0 ∧ z = false
 
 /-- rule side for memory forms: ModRM.mod may (or must) be a memory mode -/
 structure VexRuleM (rule : Rule) (nimm : Nat) : Prop where
@@ -755,18 +766,19 @@ structure VexRuleM (rule : Rule) (nimm : Nat) : Prop where
 
 /-- shape [reg, vvvv, MEM] with a 64-bit-addressed, non-VSIB memory operand without segment / broadcast: all conditions of the monitor hold -/
 theorem vex_rvm_mem_formOk (ctx : Spec.X86.Ctx) (rule : Rule) (p : Parsed) (mb : BitVec 8) (bytes pfx : List (BitVec 8))
-    (k0 k1 : RegKind) (f0 f1 f2 : FormOp) (i0 i1 : Nat) (m : MemOp)
+    (k0 k1 : RegKind) (f0 f1 f2 : FormOp) (i0 i1 : Nat) (m : MemOp) (k : Nat) (z : Bool)
     (hm64 : ctx.mode64 = true) (hmode : (rule.modes &&& 2 != 0) = true) (hk0 : PlainKind k0) (hk1 : PlainKind k1)
     (R : VexRuleM rule 0) (hf0 : f0.role = .reg) (hf1 : f1.role = .vvvv) (hf2 : f2.role = .rm)
-    (K : PfxCounts pfx m) (hvs : vsibOf m = .none) (hbc : m.bcst = 0)
+    (K : PfxCounts pfx m) (D : DecorAllowed rule k z false false) (hvs : vsibOf m = .none) (hbc : m.bcst = 0)
     (hal : alignOps rule.oszEff rule.ops [.reg k0 i0, .reg k1 i1, .mem m] =
            some [(f0, some (.reg k0 i0)), (f1, some (.reg k1 i1)), (f2, some (.mem m))])
-    (hparse : parse true rule bytes = .ok p) (P : VexParsedM rule p mb pfx)
+    (hparse : parse true rule bytes = .ok p) (P : VexParsedM rule p mb pfx k z)
     (hreg : regNum p.R' p.R (bits mb 3 3) = i0)
     (hvv : regNum p.V' false p.vvvv = i1)
     (hcm : checkMem ctx rule p m = .ok ()) :
-    formOk ctx rule [.reg k0 i0, .reg k1 i1, .mem m] {} bytes = true := by
-  obtain ⟨hvk, hpfx, hrex, hmodrm, hmod, hop, hmap, hpp, hw, hl, hl1, hev⟩ := P
+    formOk ctx rule [.reg k0 i0, .reg k1 i1, .mem m] (decorOf k z false false 0) bytes = true := by
+  obtain ⟨hvk, hpfx, hrex, hmodrm, hmod, hop, hmap, hpp, hw, hl, hl1, hev, hnk⟩ := P
+  obtain ⟨dk, dz, -, -⟩ := D
   obtain ⟨hs, hpp8, hri, hmk, hmr, hmrm, himm, hrel, hmoff, ha67, hrev, hosz⟩ := R
   obtain ⟨c66, cF3, cF2, cF0, c9B, cseg, c67, ccont⟩ := K
   have hleg : isLegacySpace rule = false := by rcases hs with h | h | h <;> simp [isLegacySpace, h]
@@ -776,7 +788,7 @@ theorem vex_rvm_mem_formOk (ctx : Spec.X86.Ctx) (rule : Rule) (p : Parsed) (mb :
   simp only [formOk, conds, hm64, hal, hparse, ↓reduceIte, hmode]
   simp only [allOk_cons, allOk_append, decorConds, headConds, prefixConds, modrmConds, operandConds, opConds, tailConds, hf0, hf1, hf2,
     regConds_plain _ _ _ _ _ hk0, regConds_plain _ _ _ _ _ hk1, allOk_nil, memOperandOf, implMemOf, usesVvvv, memDestOf, hcm, Spec.X86.ofExcept,
-    hasBcst, hleg, hri, hmodrm, hpfx, hrex, List.foldl, List.find?, c66, cF3, cF2, cF0, c9B, cseg, ccont]
+    hasBcst, hleg, hri, hmodrm, hpfx, hrex, List.foldl, List.find?, c66, cF3, cF2, cF0, c9B, cseg, ccont, decorOf]
   simp [hop, hmap, hpp, hreg, hvv, hmod', hmr, hmrm, hs4, hvk0, hpp8, ha67, hbc, hvs, hm64, allOk]
   have hvk0' : ¬ p.vexKind = 0 := by rcases hvk with h | h | h | h <;> omega
   and_intros
@@ -794,10 +806,17 @@ theorem vex_rvm_mem_formOk (ctx : Spec.X86.Ctx) (rule : Rule) (p : Parsed) (mb :
        · left; omega
        · right; exact hl1 h4)
     | (by_cases h4 : p.vexKind = 4
-       · obtain ⟨a, z, b, mm⟩ := hev h4
+       · obtain ⟨a, zz, b, mm⟩ := hev h4
          rw [hmap] at mm
-         simp [h4, allOk, a, z, b, mm]
-       · simp [h4, allOk])
+         simp [h4, allOk, a, zz, b, mm]
+       · obtain ⟨k0', z0'⟩ := hnk h4
+         simp [h4, allOk, k0', z0'])
+    | (by_cases h : k = 0
+       · exact Or.inl h
+       · exact Or.inr (dk h))
+    | (cases z
+       · exact Or.inl rfl
+       · exact Or.inr (dz rfl))
     | exact Or.inl (Or.inr (Or.inr (Or.inl ‹_›)))
     | exact Or.inl (Or.inr (Or.inr hf1))
     | rfl
